@@ -550,6 +550,13 @@ def check_workbook(case, ctx, st=None):
         if name in unselected:                                 # clause (e)
             ctx.count('monitor.unselected-cycle')
             if not xl.same(o, wv):
+                # a value that follows from what the selected inputs report is
+                # a consequence of a deviation upstream (judged there), not a
+                # cycle that failed to resolve here
+                loc = local_eval(desc, name, reported)
+                if loc is not None and xl.same(o, loc):
+                    ctx.count('monitor.unselected-cycle.consistent-with-reported-inputs')
+                    continue
                 tag = ':range-member' if name in range_members else ''
                 ctx.violation('unselected-cycle-not-resolved:%s->%s%s' % (
                     wbrun_cls(o), wbrun_cls(wv), tag), dict(
